@@ -66,7 +66,8 @@ TInit == /\ JInit /\ l = 1 /\ sync = FALSE /\ kind = "c" /\ scr = [row |-> <<>>,
 TNext ==
    /\ l <= NTrace /\ l' = l + 1 /\ Consumed(l)
    /\ LET ev == TraceLog[l] IN
-      IF ev.e = "Reset" THEN
+      \* Reinit: the same terminal object initialised again with another capacity / depth - as good as new
+      IF ev.e = "Reset" \/ (ev.e = "Reinit" /\ sync) THEN
            /\ kind' = ev.kind /\ cap' = ev.cap /\ depth' = ev.depth
            /\ line' = <<>> /\ cursor' = 0 /\ esc' = 0 /\ last' = 0 /\ hist' = <<>> /\ browse' = 0
            /\ outp' = [exec |-> <<>>, sig |-> 0]
